@@ -7,6 +7,8 @@ import os
 import vlib
 
 PROPS = "Properties_C13"
+NDEBUG_TOO = True     # the library's normal build compiles assertions out: the same cases run against that build too
+
 # leaf functions / constants of digest.c are re-translated from the C source on every run (tools/translate_leaf.py ->
 # coq/gen/Leaf.v, Constants.v) and re-proved equal to the model's (coq/Properties_leaf_digest.v)
 EXTRA_PROPS = ["Properties_leaf_digest"]
